@@ -45,7 +45,12 @@ TRead == /\ IsEv("read")
          /\ badread' = IF RRead(Ev.d, Ev.img, Ev.side) THEN badread ELSE badread \cup {hid}
          /\ UNCHANGED <<vars, hid, bad, drift, unf>>
 
-TNext == TReset \/ TPolicy \/ TAttach \/ TRead
+\* block reads through the cache: data identity must be that of the addressed surface's sector
+TBlock == /\ IsEv("block")
+          /\ badread' = IF RReadBlock(Ev.d, Ev.sec, IF Ev.img >= 0 THEN [ok |-> TRUE, data |-> [img |-> Ev.img, side |-> Ev.side, sec |-> Ev.got]] ELSE [ok |-> FALSE])
+                         THEN badread ELSE badread \cup {hid}
+          /\ UNCHANGED <<vars, hid, bad, drift, unf>>
+TNext == TReset \/ TPolicy \/ TAttach \/ TRead \/ TBlock
 TSpec == TInit /\ [][TNext]_tvars
 
 Final == (l = Len(TraceLog) + 1) => PrintT(<<"VERDICT", ToJson([bad |-> bad, badread |-> badread, drift |-> drift, n |-> Len(TraceLog)])>>)
